@@ -271,11 +271,11 @@ def extra(ctx, state):
 
     # --- known findings: one line each, with the shrunk witness
     minimal = {}
-    reps = [min(cs, key=len) for k, cs in sorted(hits.items())]
+    reps = [min(cs, key=lambda c: (len(c), c)) for k, cs in sorted(hits.items())]
     for (k, cs), (sc, rep) in zip(sorted(hits.items()), shrink(reps)):
         f = listed[k]
         same = rep.startswith("panic") and finding_key(sc, rep) == k
-        wit = sc if same else min(cs, key=len)
+        wit = sc if same else min(cs, key=lambda c: (len(c), c))
         minimal[f["id"]] = {"case": wit, "grammar": case_text(wit), "reply": rep if same else None, "count": len(cs)}
         ctx.known.append(f"{f['id']} {f['text']} (reproduced on {len(cs)} case(s); shrunk witness, {describe(wit)}: "
                          f"`{one_line(case_text(wit))}`)")
@@ -305,7 +305,7 @@ def extra(ctx, state):
 
     reached = {c for c, r in zip(cases, replies) if r and r.split()[0] in ("ok", "err", "panic", "abort", "timeout")
                and r not in ("err parse", "err config")}
-    pick = sorted(reached, key=len)
+    pick = sorted(reached, key=lambda c: (len(c), c))
     samples = [f"{describe(c)}: {one_line(case_text(c), 160)}" for c in (pick[:3] + pick[len(pick) // 2:len(pick) // 2 + 3])]
     state["coverage_extra"] = {
         # the generic keys describe the EXPLORATION (the claimed level); the census tie keeps its own block
